@@ -217,8 +217,7 @@ func runAv(k *tcase) (out []byte, panicked bool, note string) {
 			expect++
 		} else if f.kind == 'a' {
 			if asc == "none" {
-				panicked = true
-				break
+				continue // rejected by the packetizer: nothing reaches the writer
 			}
 			expect++
 		}
